@@ -71,7 +71,7 @@ def If(c, a, b):
     if _isb(c):
         if _isb(a) or _isb(b) or isinstance(a, (bool, np.bool_)):
             return SymBool(z3.If(c.t, symx.blift(a), symx.blift(b)))
-        return SymReal(z3.If(c.t, symx.lift(a), symx.lift(b)))
+        return SymReal(z3.If(c.t, symx.lift(a), symx.lift(b)), symx._is_integral(a) and symx._is_integral(b))
     return a if c else b
 
 
@@ -383,6 +383,7 @@ def run_case(prop, name, h, timeout_ms=30000, max_paths=400, allow_exceptions=()
             if n not in res['notes']:
                 res['notes'].append(n)
         base = p.defs + [symx.PI_BOUNDS]
+        ints = [v == z3.ToReal(z3.Int(str(v) + '_int')) for v in p.ctx.ints.values()]
         if p.kind == 'exc' and not isinstance(p.value, tuple(allow_exceptions)):
             res['exc_paths'] += 1
             tb = f'{type(p.value).__name__}: {p.value}'
@@ -390,7 +391,7 @@ def run_case(prop, name, h, timeout_ms=30000, max_paths=400, allow_exceptions=()
                 traceback.print_exception(type(p.value), p.value, p.value.__traceback__)
             r, mdl = solve.check_sat(p.pc + base + [solve.MARGIN == 0], timeout_ms)
             if r == 'sat':
-                _try_candidates(res, h, m.inputs, p.pc + base, z3.BoolVal(True),
+                _try_candidates(res, h, m.inputs, p.pc + base + ints, z3.BoolVal(True),
                                 f'unexpected-exception {tb[:160]}', None, timeout_ms, prop)
             elif r == 'unknown':
                 res['inconclusive'].append(f'exception path of unknown feasibility: {tb[:200]}')
@@ -400,7 +401,7 @@ def run_case(prop, name, h, timeout_ms=30000, max_paths=400, allow_exceptions=()
             res['safety'] += 1
             r, mdl = solve.prove(p.pc[:plen] + base + [solve.MARGIN == 0], f, timeout_ms, link=base + atom_links(p.ctx))
             if r == 'cex':
-                _try_candidates(res, h, m.inputs, p.pc[:plen] + base, z3.Not(f),
+                _try_candidates(res, h, m.inputs, p.pc[:plen] + base + ints, z3.Not(f),
                                 f'safety: {what}', None, timeout_ms, prop)
             elif r == 'unknown':
                 res['inconclusive'].append(f'safety obligation unknown: {what}')
@@ -417,6 +418,10 @@ def run_case(prop, name, h, timeout_ms=30000, max_paths=400, allow_exceptions=()
             hyps = p.pc[:plen] + base
             before = solve.STATS.trivial
             r, mdl = solve.prove(hyps + [solve.MARGIN == 0], term, timeout_ms, link=base + atom_links(p.ctx))
+            if r == 'cex' and ints:
+                # the relaxed (integers as reals) problem has a model: decide with integrality
+                r, mdl = solve.prove(hyps + ints + [solve.MARGIN == 0], term, timeout_ms,
+                                     link=base + atom_links(p.ctx) + ints)
             if solve.STATS.trivial == before:
                 sig = (obname, z3.simplify(term).sexpr()[:2000])
                 if sig not in seen_keys:
@@ -428,7 +433,7 @@ def run_case(prop, name, h, timeout_ms=30000, max_paths=400, allow_exceptions=()
                     'path_condition': [str(z3.simplify(c))[:200] for c in p.pc[:plen]][:12],
                     'goal': str(z3.simplify(term))[:400], 'verdict': r})
             if r == 'cex':
-                _try_candidates(res, h, m.inputs, hyps, z3.Not(term), obname, key, timeout_ms, prop)
+                _try_candidates(res, h, m.inputs, hyps + ints, z3.Not(term), obname, key, timeout_ms, prop)
             elif r == 'unknown':
                 res['inconclusive'].append(f'{obname}: solver unknown ({mdl})')
     if res['obligations'] and not res['vacuity']:
